@@ -9,7 +9,7 @@ Whole-program panic freedom is not claimable (hundreds of unwrap/index sites).  
 """
 import re
 
-from . import lib, shared, c01, c06
+from . import lib, shared, c01, c06, c08, jitmodel
 from .lib import CheckError
 
 
@@ -104,6 +104,12 @@ def run(F, R, ctx):
            "engine is left with the failed evaluation's operands", ex.loc(), sample=True)
     # ---- b
     c06.rollback_rule(F, R, "C07.b")
+    # the continuation-mark typestate rules of C08 each guard a host panic ("Failed to find an open continuation on the
+    # stack" when a continuation left open by a discarded frame is invoked by a later evaluation): part of C07 as well
+    c08.reinstate_rule(F, R)
+    c08.bulk_discard_rule(F, R)
+    if "jit2" in (F.meta.get("features") or []):
+        jitmodel.helper_panic_rule(F, R, "C07.j")
     # ---- c
     nat = natives(F)
     R.floor("C07.c", "native primitives", len(nat), 400)
